@@ -289,6 +289,8 @@ fn interrogate(a: &WModule, m: &Module, ids: &IndicesToIds, cap: &mut Captured) 
 
 #[derive(Debug)]
 struct Spy {
+    /// the section's name: a consumer of the map may carry any name, also one a tool convention knows
+    name: &'static str,
     live: Arc<Mutex<Live>>,
     out: Arc<Mutex<Vec<(Space, usize, u32)>>>,
     types_out: Arc<Mutex<Vec<(usize, u32)>>>,
@@ -306,7 +308,7 @@ struct Live {
 
 impl CustomSection for Spy {
     fn name(&self) -> &str {
-        "spy"
+        self.name
     }
     fn data(&self, ids: &IdsToIndices) -> Cow<'_, [u8]> {
         let l = self.live.lock().unwrap();
@@ -408,11 +410,11 @@ pub fn check_case(c: &Case) -> CaseResult {
     drop(capd);
     let out_map = Arc::new(Mutex::new(vec![]));
     let types_map = Arc::new(Mutex::new(vec![]));
-    m.customs.add(Spy { live: live.clone(), out: out_map.clone(), types_out: types_map.clone() });
+    m.customs.add(Spy { name: "spy", live: live.clone(), out: out_map.clone(), types_out: types_map.clone() });
     // a second consumer of the map: every custom section must see the same, complete map
     let out_map2 = Arc::new(Mutex::new(vec![]));
     let types_map2 = Arc::new(Mutex::new(vec![]));
-    m.customs.add(Spy { live: live.clone(), out: out_map2.clone(), types_out: types_map2.clone() });
+    m.customs.add(Spy { name: "dylink.0", live: live.clone(), out: out_map2.clone(), types_out: types_map2.clone() });
     let out = match emit(&mut m) {
         Ok(o) => o,
         Err(f) => {
